@@ -298,9 +298,15 @@ func (c05) Bounds(tier string) map[string]interface{} {
 	return map[string]interface{}{"all_graphs_N<=3_lists<=2": true, "named_shapes_N4": len(namedShapes4), "named_shapes_N5": len(namedShapes5), "limits": "0..N", "schedules": "all (state-pruned, unbounded)"}
 }
 
+var c05RemoteCases func(tier string, emit func(string, interface{}))
+var c05RunRemote func(c core.Case) core.Outcome
+
 func (c05) Cases(tier string, emit func(string, interface{})) {
 	for _, gc := range c05Graphs(tier) {
 		emit("graph", gc)
+	}
+	if c05RemoteCases != nil {
+		c05RemoteCases(tier, emit)
 	}
 }
 
@@ -521,6 +527,9 @@ func graphKey(gc graphCase) string {
 }
 
 func (c05) Run(c core.Case) core.Outcome {
+	if c.Kind == "remote" {
+		return c05RunRemote(c)
+	}
 	var gc graphCase
 	_ = json.Unmarshal(c.Data, &gc)
 	var o core.Outcome
